@@ -2,6 +2,7 @@ package props
 
 import (
 	"context"
+	"fmt"
 
 	"github.com/avos-io/goat/vh/env"
 	"github.com/avos-io/goat/vrt/explore"
@@ -63,10 +64,10 @@ func c15(tier string) []*explore.Scenario {
 			out = append(out, sc)
 		}
 	}
-	out = append(out, c15ProxyAttach(), c15StreamThreeThreads())
+	out = append(out, c15ProxyAttach(), c15StreamThreeThreads(), c15LateReplyVsNewCalls(2))
 	for _, sc := range out {
 		sc.Race = true
-		if sc.Bound > 1 && tier != "thorough" {
+		if sc.Bound > 1 && tier != "thorough" && !containsStr(sc.Name, "late-replies-vs-new-calls") { // (that one is small: 2 deviations in the quick tier too)
 			sc.Bound = 1
 		}
 	}
@@ -133,6 +134,57 @@ func c15StreamThreeThreads() *explore.Scenario {
 				_ = cs.Trailer()
 			})
 			vsched.GoNamed("header", func() { cs.Header() })
+			vsched.Quiesce()
+		},
+	}
+}
+
+// c15LateReplyVsNewCalls: against a scripted peer. Call a has finished; the peer then sends envelopes
+// nobody waits for (a second reply for a, an envelope for an id never issued, a message for a stream that
+// was cancelled) while new calls - a unary one and a stream - are being started on the connection.
+func c15LateReplyVsNewCalls(bound int) *explore.Scenario {
+	return &explore.Scenario{
+		Name: fmt.Sprintf("C15/client/late-replies-vs-new-calls/d=%d", bound), Family: "C15/api", Prop: "C15", Bound: bound,
+		Run: func() {
+			w := env.NewWorld()
+			env.MsgSize = 0
+			d := env.NewDirect(w, env.DirectOpts{Pipe: env.PipeOpts{Cap: 64}, NoServer: true})
+			vsched.GoNamed("peer-reader", func() {
+				for {
+					if _, err := d.Pipe.B.Read(context.Background()); err != nil {
+						return
+					}
+				}
+			})
+			vsched.Settle()
+			a := w.Rec("a", "Unary")
+			vsched.GoNamed("caller-a", func() { w.CallUnary(d.CC, context.Background(), a, "x") })
+			vsched.Settle()
+			d.Pipe.B.Inject(env.RespUnary(1, "R:a|x"))
+			sc := w.Rec("sc", "Bidi")
+			sctx, scancel := context.WithCancel(context.Background())
+			vsched.GoNamed("caller-sc", func() { w.Open(d.CC, sctx, sc) })
+			vsched.Settle()
+			scancel() // stream id 2 is cancelled: what the peer still sends for it finds nobody
+			vsched.Settle()
+			vsched.Explore(true)
+			vsched.GoNamed("peer", func() {
+				d.Pipe.B.Inject(env.RespUnary(1, "R:a|x"))
+				d.Pipe.B.Inject(env.RespBody(2, env.MBidi, "late"))
+				d.Pipe.B.Inject(env.RespUnary(99, "stray"))
+			})
+			b := w.Rec("b", "Unary")
+			bctx, bcancel := context.WithCancel(context.Background())
+			vsched.GoNamed("caller-b", func() { w.CallUnary(d.CC, bctx, b, "x") })
+			s2 := w.Rec("s2", "Bidi")
+			s2ctx, s2cancel := context.WithCancel(context.Background())
+			vsched.GoNamed("caller-s2", func() { w.Open(d.CC, s2ctx, s2) })
+			vsched.Quiesce()
+			bcancel()
+			s2cancel()
+			vsched.Quiesce()
+			d.Pipe.A.Break()
+			d.Pipe.B.Break()
 			vsched.Quiesce()
 		},
 	}
